@@ -368,6 +368,18 @@ def directed():
     rng = random.Random(303)
     for k in range(40):
         yield gen_seq(rng, "quick", nsteps=[5, 12, 50, 60][k % 4])
+    # consecutive writes through long index arrays (more than 1000 entries) that agree in their first and last entries and differ in between
+    for nrows in (1300, 2500):
+        ll = [(i * 5) % 3 + 1 for i in range(nrows)]
+        a1 = [0, 1, 2] + list(range(10, 1104)) + [nrows - 3, nrows - 2, nrows - 1]
+        a2 = [0, 1, 2] + list(range(110, 1204)) + [nrows - 3, nrows - 2, nrows - 1]
+        if len(set(a2)) == len(a2):
+            m1 = [i % 3 != 1 for i in range(nrows)]
+            m2 = m1[:3] + [i % 4 != 1 for i in range(3, nrows - 3)] + m1[-3:]
+            yield {"seq": True, "lens": ll, "dtype": "int64", "recv": "fresh", "steps": [
+                {"rs": np.array(a1), "cs": None, "has_cs": False, "vk": "scalar"}, {"rs": np.array(a2), "cs": None, "has_cs": False, "vk": "scalar"},
+                {"rs": np.array(m1), "cs": None, "has_cs": False, "vk": "scalar"}, {"rs": np.array(m2), "cs": None, "has_cs": False, "vk": "ragged"},
+                {"rs": np.array(a1), "cs": slice(0, 1), "has_cs": True, "vk": "colvec"}, {"rs": np.array(a2), "cs": slice(0, 1), "has_cs": True, "vk": "scalar"}]}
     hl = [(i * 7) % 3 for i in range(130001)]
     yield mk_case(hl, slice(None, None, 2), None, False, "scalar")
     yield mk_case(hl, slice(3, None, 1), slice(None, None, -1), True, "colvec")
